@@ -366,15 +366,39 @@ func (fr *frame) store(p *Value, v Value) {
 
 // intIndex forces an index to a concrete int after the Go bounds check.
 func (fr *frame) intIndex(idx Value, n int, what string) int {
+	return fr.intIndexT(idx, nil, n, what)
+}
+
+// intIndexT: idx of static type typ (nil: signed); unsigned narrow indices are zero-extended.
+func (fr *frame) intIndexT(idx Value, typ types.Type, n int, what string) int {
 	p := fr.g.p
+	unsigned := false
+	if typ != nil {
+		if b, ok := typ.Underlying().(*types.Basic); ok && b.Info()&types.IsUnsigned != 0 {
+			unsigned = true
+		}
+	}
 	if idx.R == nil {
 		i := sext64(idx.N, idx.W)
+		if unsigned && idx.W < 64 {
+			i = int64(idx.N & (1<<idx.W - 1))
+		}
 		if i < 0 || i >= int64(n) {
 			fr.runtimePanic(fmt.Sprintf("index out of range [%d] with length %d", i, n))
 		}
 		return int(i)
 	}
 	t := idx.term()
+	if t.w < 64 && uint64(n) >= 1<<t.w {
+		if unsigned {
+			return int(p.concretize(t)) // every value of the narrow unsigned type is in range
+		}
+		// signed narrow index: in range iff non-negative
+		if !p.decideBool(p.ts.Sle(p.ts.Const(t.w, 0), t)) {
+			fr.runtimePanic(fmt.Sprintf("index out of range [sym] with length %d", n))
+		}
+		return int(p.concretize(t))
+	}
 	inRange := p.ts.Ult(t, p.ts.Const(t.w, uint64(n)))
 	if !p.decideBool(inRange) {
 		fr.runtimePanic(fmt.Sprintf("index out of range [sym] with length %d", n))
@@ -577,14 +601,14 @@ func (fr *frame) exec(ins ssa.Instruction) cont {
 		switch x.K {
 		case KSlice:
 			s := x.slice()
-			i := fr.intIndex(idx, len(s), "slice")
+			i := fr.intIndexT(idx, ins.Index.Type(), len(s), "slice")
 			fr.set(ins, mkPtr(&s[i]))
 		case KPtr:
 			if x.R == nil {
 				fr.runtimePanic("invalid memory address or nil pointer dereference")
 			}
 			a := x.ptr().agg()
-			i := fr.intIndex(idx, len(a), "array")
+			i := fr.intIndexT(idx, ins.Index.Type(), len(a), "array")
 			fr.set(ins, mkPtr(&a[i]))
 		default:
 			panic("engine: IndexAddr on " + kindNames[x.K])
@@ -595,10 +619,10 @@ func (fr *frame) exec(ins ssa.Instruction) cont {
 		switch x.K {
 		case KAgg:
 			a := x.agg()
-			fr.set(ins, fr.indexRead(a, idx))
+			fr.set(ins, fr.indexRead(a, idx, ins.Index.Type()))
 		case KStr:
 			n := strLen(x)
-			i := fr.intIndex(idx, n, "string")
+			i := fr.intIndexT(idx, ins.Index.Type(), n, "string")
 			fr.set(ins, strByte(x, i))
 		default:
 			panic("engine: Index on " + kindNames[x.K])
@@ -652,13 +676,24 @@ func makeSliceVals(elem types.Type, ln, cp int) []Value {
 }
 
 // indexRead reads a[idx]; a symbolic index into a small table becomes an ite-chain.
-func (fr *frame) indexRead(a []Value, idx Value) Value {
+func (fr *frame) indexRead(a []Value, idx Value, typ types.Type) Value {
 	p := fr.g.p
 	if idx.R == nil {
-		i := fr.intIndex(idx, len(a), "array")
+		i := fr.intIndexT(idx, typ, len(a), "array")
 		return copyVal(a[i])
 	}
 	t := idx.term()
+	unsigned := false
+	if typ != nil {
+		if b, ok := typ.Underlying().(*types.Basic); ok && b.Info()&types.IsUnsigned != 0 {
+			unsigned = true
+		}
+	}
+	covers := t.w < 64 && uint64(len(a)) >= 1<<t.w // the table is at least as large as the index type's range
+	if covers && !unsigned {
+		i := fr.intIndexT(idx, typ, len(a), "array")
+		return copyVal(a[i])
+	}
 	scalar := len(a) > 0 && len(a) <= 256
 	for i := range a {
 		if a[i].K != KInt || a[i].R != nil {
@@ -667,12 +702,14 @@ func (fr *frame) indexRead(a []Value, idx Value) Value {
 		}
 	}
 	if !scalar {
-		i := fr.intIndex(idx, len(a), "array")
+		i := fr.intIndexT(idx, typ, len(a), "array")
 		return copyVal(a[i])
 	}
-	inRange := p.ts.Ult(t, p.ts.Const(t.w, uint64(len(a))))
-	if !p.decideBool(inRange) {
-		fr.runtimePanic(fmt.Sprintf("index out of range [sym] with length %d", len(a)))
+	if !covers {
+		inRange := p.ts.Ult(t, p.ts.Const(t.w, uint64(len(a))))
+		if !p.decideBool(inRange) {
+			fr.runtimePanic(fmt.Sprintf("index out of range [sym] with length %d", len(a)))
+		}
 	}
 	w := a[0].W
 	acc := p.ts.Const(w, a[len(a)-1].N)
